@@ -626,6 +626,19 @@ class JGen(sg.Gen):
         elif r < 0.85:
             self.hist.append((CSCLEAR, [c]))
             self.cs_depth[c] = 0
+            live_hot = [h for h in self.hot if h in self.live]
+            if len(live_hot) >= 3 and rng.random() < 0.5:
+                # the cleared set is refilled in shuffled order and then consumed by value (what the backing storage
+                # kept from before the clear must not matter)
+                hs = rng.sample(live_hot, min(len(live_hot), rng.randint(3, 6)))
+                pairs = []
+                for h in hs:
+                    pairs += [h, rng.randint(-20, 20)]
+                self.hist.append((CSEXTEND, [c, len(hs)] + pairs))
+                self.cs_depth[c] = len(hs)
+                kind = rng.choice([K_JOIN, K_LEND])
+                self.hist.append((JOIN, [kind, -1, 2, M_CS, c, 2, 0, M_ENTS]))
+                self.cs_depth[c] = 0
         else:
             self.hist.append((CSDUMP, [c]))
 
